@@ -1612,6 +1612,146 @@ const SPECS: &[Spec] = &[
         tail: None,
         note: "`Time` and `Duration` are whole seconds (`Int`); `has_staged` = some publisher has a non-empty set of staged elements; the configured minimal interval is the parameter `interval`, the clock the parameter `now`.",
     },
+    Spec {
+        id: "C02",
+        file: "src/server/ca/child.rs",
+        ty: "ChildCertificates",
+        method: "add_issued_certificate",
+        lean: "ChildCertificates.add_issued_certificate",
+        sig: "&mutself,issued:IssuedCertificate->()",
+        binders: "{K C M : Type} (insert : M → K → C → M) (remove : M → K → M) (key_of : C → K) (self_issued self_suspended : M) (issued : C)",
+        args: "insert remove key_of self_issued self_suspended issued",
+        ret: "M × M",
+        num: Num::Nat,
+        names: &[("issued.key_identifier()", "(key_of issued)")],
+        methods: &[],
+        state_ty: &[],
+        elem_ty: "",
+        enums: &[],
+        structs: &[],
+        types: &[],
+        opaque_lets: &[],
+        effects: &[("self.suspended.remove(&ki)", "self_suspended", "remove self_suspended ki"), ("self.issued.insert(ki,issued)", "self_issued", "insert self_issued ki issued")],
+        wrapper: None,
+        cond_effects: &[],
+        self_fields: &["issued", "suspended"],
+        mut_params: &[],
+        extern_enums: &[],
+        tail: None,
+        note: "the two maps `M` (`HashMap<KeyIdentifier, _>`), key identifiers `K` and certificates `C` are abstract: `map.insert(k, c)` is `insert map k c`, `map.remove(&k)` is `remove map k`; the conversions between issued / suspended / unsuspended certificates (`into_converted`) keep the certificate; the result is (issued, suspended) after the call.",
+    },
+    Spec {
+        id: "C02",
+        file: "src/server/ca/child.rs",
+        ty: "ChildCertificates",
+        method: "unsuspend_certificate",
+        lean: "ChildCertificates.unsuspend_certificate",
+        sig: "&mutself,unsuspended:UnsuspendedCert->()",
+        binders: "{K C M : Type} (insert : M → K → C → M) (remove : M → K → M) (key_of : C → K) (self_issued self_suspended : M) (unsuspended : C)",
+        args: "insert remove key_of self_issued self_suspended unsuspended",
+        ret: "M × M",
+        num: Num::Nat,
+        names: &[("unsuspended.key_identifier()", "(key_of unsuspended)")],
+        methods: &[],
+        state_ty: &[],
+        elem_ty: "",
+        enums: &[],
+        structs: &[],
+        types: &[],
+        opaque_lets: &[],
+        effects: &[("self.suspended.remove(&ki)", "self_suspended", "remove self_suspended ki"), ("self.issued.insert(ki,unsuspended.into_converted())", "self_issued", "insert self_issued ki unsuspended")],
+        wrapper: None,
+        cond_effects: &[],
+        self_fields: &["issued", "suspended"],
+        mut_params: &[],
+        extern_enums: &[],
+        tail: None,
+        note: "the two maps `M` (`HashMap<KeyIdentifier, _>`), key identifiers `K` and certificates `C` are abstract: `map.insert(k, c)` is `insert map k c`, `map.remove(&k)` is `remove map k`; the conversions between issued / suspended / unsuspended certificates (`into_converted`) keep the certificate; the result is (issued, suspended) after the call.",
+    },
+    Spec {
+        id: "C02",
+        file: "src/server/ca/child.rs",
+        ty: "ChildCertificates",
+        method: "suspend_certificate",
+        lean: "ChildCertificates.suspend_certificate",
+        sig: "&mutself,suspended:SuspendedCert->()",
+        binders: "{K C M : Type} (insert : M → K → C → M) (remove : M → K → M) (key_of : C → K) (self_issued self_suspended : M) (suspended : C)",
+        args: "insert remove key_of self_issued self_suspended suspended",
+        ret: "M × M",
+        num: Num::Nat,
+        names: &[("suspended.key_identifier()", "(key_of suspended)")],
+        methods: &[],
+        state_ty: &[],
+        elem_ty: "",
+        enums: &[],
+        structs: &[],
+        types: &[],
+        opaque_lets: &[],
+        effects: &[("self.issued.remove(&ki)", "self_issued", "remove self_issued ki"), ("self.suspended.insert(ki,suspended)", "self_suspended", "insert self_suspended ki suspended")],
+        wrapper: None,
+        cond_effects: &[],
+        self_fields: &["issued", "suspended"],
+        mut_params: &[],
+        extern_enums: &[],
+        tail: None,
+        note: "the two maps `M` (`HashMap<KeyIdentifier, _>`), key identifiers `K` and certificates `C` are abstract: `map.insert(k, c)` is `insert map k c`, `map.remove(&k)` is `remove map k`; the conversions between issued / suspended / unsuspended certificates (`into_converted`) keep the certificate; the result is (issued, suspended) after the call.",
+    },
+    Spec {
+        id: "C02",
+        file: "src/server/ca/child.rs",
+        ty: "ChildCertificates",
+        method: "remove_revoked_key",
+        lean: "ChildCertificates.remove_revoked_key",
+        sig: "&mutself,key:&KeyIdentifier->()",
+        binders: "{K C M : Type} (insert : M → K → C → M) (remove : M → K → M) (self_issued self_suspended : M) (key : K)",
+        args: "insert remove self_issued self_suspended key",
+        ret: "M × M",
+        num: Num::Nat,
+        names: &[],
+        methods: &[],
+        state_ty: &[],
+        elem_ty: "",
+        enums: &[],
+        structs: &[],
+        types: &[],
+        opaque_lets: &[],
+        effects: &[("self.issued.remove(key)", "self_issued", "remove self_issued key"), ("self.suspended.remove(key)", "self_suspended", "remove self_suspended key")],
+        wrapper: None,
+        cond_effects: &[],
+        self_fields: &["issued", "suspended"],
+        mut_params: &[],
+        extern_enums: &[],
+        tail: None,
+        note: "the two maps `M` (`HashMap<KeyIdentifier, _>`), key identifiers `K` and certificates `C` are abstract: `map.insert(k, c)` is `insert map k c`, `map.remove(&k)` is `remove map k`; the conversions between issued / suspended / unsuspended certificates (`into_converted`) keep the certificate; the result is (issued, suspended) after the call.",
+    },
+    Spec {
+        id: "C02",
+        file: "src/server/ca/child.rs",
+        ty: "ChildCertificates",
+        method: "is_empty",
+        lean: "ChildCertificates.is_empty",
+        sig: "&self->bool",
+        binders: "{M : Type} (map_is_empty : M → Bool) (self_issued self_suspended : M)",
+        args: "map_is_empty self_issued self_suspended",
+        ret: "Bool",
+        num: Num::Nat,
+        names: &[("self.issued.is_empty()", "(map_is_empty self_issued)"), ("self.suspended.is_empty()", "(map_is_empty self_suspended)")],
+        methods: &[],
+        state_ty: &[],
+        elem_ty: "",
+        enums: &[],
+        structs: &[],
+        types: &[],
+        opaque_lets: &[],
+        effects: &[],
+        wrapper: None,
+        cond_effects: &[],
+        self_fields: &[],
+        mut_params: &[],
+        extern_enums: &[],
+        tail: None,
+        note: "the serde skip predicate of `ResourceClass::certificates` (seed C06 round 1 dropped the `suspended` half).",
+    },
 ];
 
 type R = Result<String, String>;
